@@ -122,7 +122,10 @@ def lex(data: bytes) -> LexResult:
                     if j + 1 >= n:
                         break
                     if data[j + 1] in (10, 13):
-                        r.unspec.append("backslash-newline-in-string")
+                        # RFC 5228 8.1: "\\" may only be followed by an octet that is neither
+                        # CR nor LF (quoted-special / octet-not-qspecial)
+                        r.error = ("backslash-before-line-break", j)
+                        return r
                     if data[j + 1] == 0:
                         r.unspec.append("NUL-in-string")
                     j += 2
